@@ -140,7 +140,7 @@ func (vc *VC) Run() {
 		for _, f := range fd.Recv.List {
 			for _, n := range f.Names {
 				bindParam(n, vc.info.TypeOf(f.Type))
-				if o, _ := vc.info.Defs[n].(*types.Var); o != nil && vc.sweep && vc.con == nil {
+				if o, _ := vc.info.Defs[n].(*types.Var); o != nil && vc.sweep {
 					if rv, ok := vc.entry.vars[o]; ok && kindOf(rv.T) == KPtr {
 						vc.assume(Ne(rv.C[0], Zero)) // sweep mode: methods are called on non-nil receivers (A-recv)
 					}
